@@ -7,8 +7,8 @@ import (
 	"strings"
 	"time"
 
-	"verifharness/internal/h"
-	"verifharness/internal/jws"
+	"verifharness/pkg/h"
+	"verifharness/pkg/jws"
 )
 
 func init() { register("tokens", "C03", runTokens) }
